@@ -45,6 +45,7 @@ def family(rp):
     f.add("call-None-after-nullable-parameter", "def n(a: Int?, b: Int) -> Int => b\ndef r: Int := n(None, None)", "reject")
     f.add("call-None-for-nullable-parameter-first", "def n(a: Int?, b: Int) -> Int => b\ndef r: Int := n(None, 2)", "accept")
     f.add("call-nullable-value-after-nullable-parameter", "def n(a: Int?, b: Int) -> Int => b\ndef y: Int? := 1\ndef r: Int := n(1, y)", "reject")
+    f.add("call-None-for-defaulted-parameter", "def d(a: Int, b: Int := 5) -> Int => a + b\ndef r: Int := d(1, None)", "reject")
     f.add("call-none-into-non-nullable-parameter", fn + "def r: Int := f(None)", "reject")
     f.add("return-conforming", "def h(a: Int) -> Int =>\n    return a", "accept")
     f.add("return-wrong-type", "def h(a: Int) -> Int =>\n    return \"s\"", "reject")
